@@ -4,7 +4,7 @@
 #include "c06_common.h"
 #include "base/QXmppSasl.cpp"
 using BMap = QMap<QByteArray, QByteArray>;
-extern "C" { void vp_dig_bytes(QByteArray *out, const unsigned char *buf, unsigned len, unsigned cap); unsigned vp_dig_log_len(const BMap *m); }
+extern "C" { void vp_dig_at_hint(const QByteArray *m, unsigned mask); void vp_dig_bytes(QByteArray *out, const unsigned char *buf, unsigned len, unsigned cap); unsigned vp_dig_log_len(const BMap *m); }
 #define L(x) QByteArrayLiteral(x)
 
 // ---- reference parser, written from RFC 2831 7.1 (which imports the RFC 2616 rules) ---------------------------------------------
@@ -109,17 +109,18 @@ static QByteArray cat(std::initializer_list<QByteArray> parts) { QByteArray r; f
 // A message built from literal pieces (grammar characters at known positions) and symbolic pieces (assumed free of '=', '"', ','):
 // the positions of the grammar characters are registered as an indexOf structure hint (c06_models.c: verified by the model before use).
 struct Msg {
-    QByteArray m; unsigned n = 0; char hc[8]; unsigned hp[8];
+    QByteArray m; unsigned n = 0, opaque = 0; char hc[8]; unsigned hp[8];
     void lit(const char *t) { for (; *t; t++) { if (*t == '=' || *t == '"' || *t == ',') { vp_assert(n < 8, "C06 harness: at most 8 grammar characters per hinted message"); hc[n] = *t; hp[n] = unsigned(m.size()); n++; } m.append(*t); } }
-    void sym(const QByteArray &v) { m.append(v); }
-    void hint(bool on) { if (!on) return; vp_index_hint_begin(&m); for (unsigned i = 0; i < n; i++) vp_index_hint(hc[i], hp[i]); }
+    void sym(const QByteArray &v) { for (int i = 0; i < v.size(); i++) opaque |= 1u << unsigned(m.size() + i); m.append(v); }
+    // bit0: indexOf structure hint ('=', '"', ',' positions; then symbolic pieces hold none of them); bit1: at() hint (symbolic pieces hold neither '"' nor backslash - true for every shape)
+    void hint(unsigned h) { if (h & 2) vp_dig_at_hint(&m, opaque); if (!(h & 1)) return; vp_index_hint_begin(&m); for (unsigned i = 0; i < n; i++) vp_index_hint(hc[i], hp[i]); }
 };
 static bool noGrammar(const QByteArray &v) { return vpNoByte(v, '=') && vpNoByte(v, '"') && vpNoByte(v, ','); }
-// cfg0 = shape, cfg1 = length of each symbolic value piece, cfg2 = 1: structure hint (then quoted values hold no '=' / ','), 0: none
+// cfg0 = shape, cfg1 = length of each symbolic value piece, cfg2 = hints: bit0 indexOf structure hint (then quoted values hold no '=' / ','), bit1 at() hint
 extern "C" void h_dig_parse_shape()
 {
     unsigned shape = vp_cfg(0), lv = vp_cfg(1);
-    bool hinted = vp_cfg(2) != 0;
+    bool hinted = (vp_cfg(2) & 1) != 0;
     QByteArray V = vpBytesExact(lv), W = vpBytesExact(lv); BMap exp; Msg x;
     if (hinted) vp_assume(noGrammar(V) && noGrammar(W));
     switch (shape) {
@@ -144,7 +145,7 @@ extern "C" void h_dig_parse_shape()
         vp_assume(qdBytes(V) && tokBytes(W)); x.lit("nonce=\""); x.sym(V); x.lit("\",qop=auth,charset="); x.sym(W);
         exp[L("nonce")] = V; exp[L("qop")] = L("auth"); exp[L("charset")] = W; break;
     }
-    x.hint(hinted); const QByteArray &m = x.m;
+    x.hint(vp_cfg(2)); const QByteArray &m = x.m;
     unsigned nexp = vp_dig_log_len(&exp);
     BMap map = QXmppSaslDigestMd5::parseMessage(m);
     vp_assert(unsigned(map.size()) == (shape == 10 ? 1 : nexp), "C06 DIGEST-MD5 parseMessage: the map holds exactly the directives of the message");
@@ -197,21 +198,30 @@ extern "C" void h_dig_parse_probe()
 
 // serialize -> parse with the CLASS of every value byte fixed per instance (so that quoting decisions are structure, not data):
 // cfg0 = length n (<= 3), cfg1 = classes, base 6, first byte = lowest digit: 0 arbitrary byte that is no separator (symbolic), 1 '"', 2 backslash, 3 ',', 4 SP, 5 '='
+// cfg2 bit0: the written text is also read by the reference parser; bit1: skip the real parser (serializer lemma only)
 extern "C" void h_dig_roundtrip_cls()
 {
     unsigned n = vp_cfg(0), code = vp_cfg(1);
-    QByteArray v;
+    QByteArray v; bool quoted = false; unsigned cls[4];
     for (unsigned i = 0; i < n; i++) {
-        unsigned cls = code % 6; code /= 6;
-        if (cls == 0) { QByteArray p = vpBytesExact(1); vp_assume(tokBytes(p)); v.append(p); }
-        else v.append(cls == 1 ? '"' : cls == 2 ? '\\' : cls == 3 ? ',' : cls == 4 ? ' ' : '=');
+        cls[i] = code % 6; code /= 6; if (cls[i]) quoted = true;
+        if (cls[i] == 0) { QByteArray p = vpBytesExact(1); vp_assume(tokBytes(p)); v.append(p); }
+        else v.append(cls[i] == 1 ? '"' : cls[i] == 2 ? '\\' : cls[i] == 3 ? ',' : cls[i] == 4 ? ' ' : '=');
     }
     BMap m; m.insert(L("k"), v);
     QByteArray text = QXmppSaslDigestMd5::serializeMessage(m);
-    BMap back = QXmppSaslDigestMd5::parseMessage(text);
-    vp_assert(back.size() == 1 && back.contains(L("k")) && back.value(L("k")) == v, "C06 DIGEST-MD5 codec: parse(serialize({k: v})) == {k: v} (quoting and escaping are inverted by the parser)");
-    // what is written conforms to the RFC 2831 7.1 grammar and means {k: v} to any conforming reader (reference parser)
-    if (!vp_cfg(2)) return;   // cfg2 = 1: also check the text against the reference parser
+    if (!(vp_cfg(2) & 2)) {
+        // at() hint for the parser (dig_map.c, verified by the model): where the RFC form of the text - k=v, or k="v" with '"' and backslash
+        // escaped when v holds a separator - has its arbitrary bytes. A position that does not hold an arbitrary byte is harmless
+        // unless it holds '"' or a backslash, which the model asserts it does not.
+        unsigned pos = quoted ? 3 : 2, mask = 0;
+        for (unsigned i = 0; i < n; i++) { if (cls[i] == 0) mask |= 1u << pos; pos += (cls[i] == 1 || cls[i] == 2) ? 2 : 1; }
+        vp_dig_at_hint(&text, mask);
+        BMap back = QXmppSaslDigestMd5::parseMessage(text);
+        vp_assert(back.size() == 1 && back.contains(L("k")) && back.value(L("k")) == v, "C06 DIGEST-MD5 codec: parse(serialize({k: v})) == {k: v} (quoting and escaping are inverted by the parser)");
+        QByteArray none; vp_dig_at_hint(&none, 0);   // hint off: the harness reads the true bytes below
+    }
+    if (!(vp_cfg(2) & 1)) return;
     unsigned tn = unsigned(text.size()); vp_assert(tn <= RMAXV, "C06 harness: serialised text fits the reference buffer");
     unsigned char b[RMAXV]; for (unsigned i = 0; i < RMAXV; i++) b[i] = i < tn ? (unsigned char)text.at(int(i)) : 0;
     RefOut o; refParse(b, tn, o);
